@@ -23,11 +23,10 @@ type Env struct {
 	GoBin    string
 	Report   *instr.Report
 	TreeDig  string
-	Worker   string // path of race-built worker binary
-	Refeval  string // path of plain reference evaluator
-	Cover    string // instrumented, non-race build (coverage-guided corpus growth)
-	Small    string // race-built worker of the knob-shrunk variant ("" if none)
-	Shrunk   []instr.Knob
+	Worker   string              // path of race-built worker binary
+	Refeval  string              // path of plain reference evaluator
+	Cover    string              // instrumented, non-race build (coverage-guided corpus growth)
+	Variants map[string]*Variant // configuration variants built for this run ("small", "weakhash")
 	BuildS   float64
 }
 
@@ -174,22 +173,34 @@ func must(err error) {
 	}
 }
 
-// prepareSmall builds the configuration variant in which every capacity-like
-// constant the instrumenter found is shrunk to 2 (DESIGN.md 6.5): caches
-// evict, rings wrap and "full" paths run after two or three calls.
-func prepareSmall(e *Env, knobs []instr.Knob) error {
+// Variant is a configuration variant of the tree under test.
+type Variant struct {
+	Name  string
+	Bin   string
+	Knobs []instr.Knob     // capacity constants shrunk to 2
+	Weak  []instr.HashFunc // narrow hash functions weakened to Bits bits
+	Bits  int
+}
+
+// prepareVariant builds a configuration variant (DESIGN.md 6.2): capacity-like
+// constants shrunk to 2 and/or narrow hash functions weakened to a few bits.
+func prepareVariant(e *Env, name string, knobs []instr.Knob, weak []instr.HashFunc, bits int) error {
 	shrink := map[int]string{}
 	for _, k := range knobs {
 		shrink[k.ID] = "2"
 	}
+	weaken := map[int]int{}
+	for _, h := range weak {
+		weaken[h.ID] = bits
+	}
 	plain := filepath.Join(e.Scratch, "plain")
-	lib := filepath.Join(e.Scratch, "lib_small")
+	lib := filepath.Join(e.Scratch, "lib_"+name)
 	os.RemoveAll(lib)
-	rep, err := instr.InstrumentShrunk(plain, lib, e.SimDir, shrink)
+	rep, err := instr.InstrumentVariant(plain, lib, e.SimDir, shrink, weaken)
 	if err != nil {
 		return err
 	}
-	wmod := filepath.Join(e.Scratch, "wmod_small")
+	wmod := filepath.Join(e.Scratch, "wmod_"+name)
 	os.MkdirAll(wmod, 0o755)
 	mod := fmt.Sprintf("module verifworker\n\ngo 1.23\n\nrequire (\n\t%s v0.0.0\n\tverif/sim v0.0.0\n)\n\nreplace %s => %s\n\nreplace verif/sim => %s\n", rep.ModulePath, rep.ModulePath, lib, e.SimDir)
 	main := fmt.Sprintf("package main\n\nimport (\n\tlib %q\n\t\"verif/sim/workerlib\"\n)\n\nfunc main() { workerlib.Main(lib.IsSQLi, lib.IsXSS, lib.VerifGlobals, lib.VerifGlobalNames) }\n", rep.ModulePath)
@@ -199,11 +210,15 @@ func prepareSmall(e *Env, knobs []instr.Knob) error {
 	if err := os.WriteFile(filepath.Join(wmod, "main.go"), []byte(main), 0o644); err != nil {
 		return err
 	}
-	out := filepath.Join(e.Scratch, "bin", "worker_small")
+	out := filepath.Join(e.Scratch, "bin", "worker_"+name)
 	if o, err := run(wmod, goEnv(), e.GoBin, "build", "-race", "-tags", "verif", "-o", out, "."); err != nil {
 		return fmt.Errorf("variant does not build: %s", tail(o, 600))
 	}
-	e.Small = out
-	e.Shrunk = knobs
+	if e.Variants == nil {
+		e.Variants = map[string]*Variant{}
+	}
+	e.Variants[name] = &Variant{Name: name, Bin: out, Knobs: knobs, Weak: weak, Bits: bits}
 	return nil
 }
+
+func prepareSmall(e *Env, knobs []instr.Knob) error { return prepareVariant(e, "small", knobs, nil, 0) }
